@@ -77,6 +77,14 @@ Poly Normaliser::norm(int t, bool fp) {
   else if (x.op == TT.OP_C) { if (fp) r = atom(t); else r = pconst(Q((long long)x.k)); }
   else if (x.op == TT.OP_CF) { Q q; if (dyadic(TT.cfval(t), q)) r = pconst(q); else r = atom(t); }
   else if (x.op == TT.OP_RATC) r = pconst(Q((__int128)x.k, (__int128)x.bytes));
+  else if (x.op == TT.OP_CONCAT && x.bytes <= 8) { // a value assembled from constant pieces
+    uint64_t bits = 0; int pos = 0; bool allc = true;
+    for (int a : x.a) { const Term &y = TT.t[a]; uint64_t b; if (y.op == TT.OP_C) b = (uint64_t)y.k; else if (y.op == TT.OP_CF) { if (y.bytes == 4) { float f = (float)TT.cfval(a); uint32_t u; memcpy(&u, &f, 4); b = u; } else { double d = TT.cfval(a); memcpy(&b, &d, 8); } } else { allc = false; break; }
+      if (y.bytes < 8) b &= ((1ULL << (8 * y.bytes)) - 1); bits |= b << (8 * pos); pos += y.bytes; }
+    if (!allc) r = atom(t);
+    else if (fp) { double d; if (x.bytes == 4) { uint32_t u = (uint32_t)bits; float f; memcpy(&f, &u, 4); d = f; } else memcpy(&d, &bits, 8); Q q; if (dyadic(d, q)) r = pconst(q); else r = atom(t); }
+    else { int64_t sv = x.bytes < 8 ? (int64_t)(bits << (64 - 8 * x.bytes)) >> (64 - 8 * x.bytes) : (int64_t)bits; r = pconst(Q((long long)sv)); }
+  }
   else if ((x.op == TT.OP_FADD && fp) || (x.op == TT.OP_ADD && !fp)) { r = A(0); padd(r, A(1), 1); }
   else if ((x.op == TT.OP_FSUB && fp) || (x.op == TT.OP_SUB && !fp)) { r = A(0); padd(r, A(1), -1); }
   else if ((x.op == TT.OP_FMUL && fp) || (x.op == TT.OP_MUL && !fp)) r = pmul(A(0), A(1));
@@ -217,6 +225,9 @@ int Canon::canon(int t) {
   else if (x.op == TT.OP_ADD && x.a[0] == x.a[1]) r = mk(TT.OP_MUL, {x.a[0], TT.cint(2, x.bytes)}, 0, x.bytes);
   else if ((op == "sdiv" || op == "udiv") && x.a[0] == x.a[1]) r = TT.cint(1, x.bytes); // x/x: division by zero is undefined, so the quotient is 1 wherever it is defined
   else if (x.op == TT.OP_SUB && x.a[0] == x.a[1]) r = TT.cint(0, x.bytes);
+  else if (x.op == TT.OP_SUB && TT.t[x.a[0]].op == TT.OP_XOR && TT.t[x.a[1]].op == TT.OP_ASHR && TT.t[TT.t[x.a[1]].a[1]].op == TT.OP_C && TT.t[TT.t[x.a[1]].a[1]].k == x.bytes * 8 - 1 &&
+           ((TT.t[x.a[0]].a[0] == x.a[1] && TT.t[x.a[0]].a[1] == TT.t[x.a[1]].a[0]) || (TT.t[x.a[0]].a[1] == x.a[1] && TT.t[x.a[0]].a[0] == TT.t[x.a[1]].a[0])))
+    r = TT.mk("abs", {TT.t[x.a[1]].a[0]}, 0, x.bytes);   // (x ^ (x >> 31)) - (x >> 31) == |x|
   else if (x.op == TT.OP_MUL && ((TT.t[x.a[0]].op == TT.OP_C && TT.t[x.a[0]].k == 0) || (TT.t[x.a[1]].op == TT.OP_C && TT.t[x.a[1]].k == 0))) r = TT.cint(0, x.bytes);
   else if (op == "abs" && TT.t[x.a[0]].op == TT.OP_C) r = TT.cint(TT.t[x.a[0]].k < 0 ? -TT.t[x.a[0]].k : TT.t[x.a[0]].k, x.bytes);
   else if (x.op == TT.OP_MUL && x.bytes == 8 && x.a.size() == 2 && ((TT.t[x.a[0]].op == TT.OP_C && TT.t[x.a[0]].k == 4294967297LL && TT.t[x.a[1]].op == TT.OP_ZEXT && TT.t[x.a[1]].k == 32) || (TT.t[x.a[1]].op == TT.OP_C && TT.t[x.a[1]].k == 4294967297LL && TT.t[x.a[0]].op == TT.OP_ZEXT && TT.t[x.a[0]].k == 32))) {
@@ -250,6 +261,8 @@ int Canon::canon(int t) {
     else if (y.op == TT.OP_CONCAT) { int pos = 0; for (int a : y.a) { int w = TT.t[a].bytes; if (lo >= pos && lo + len <= pos + w) { r = (lo == pos && len == w) ? a : canon(TT.mk(TT.OP_PIECE, {a}, lo - pos, len)); break; } pos += w; } }
   }
   else if (x.op == TT.OP_SELECT && x.a[1] == x.a[2]) r = x.a[1];
+  else if (x.op == TT.OP_SELECT && OPS.name(TT.t[x.a[0]].op) == "icmp.slt" && TT.t[TT.t[x.a[0]].a[1]].op == TT.OP_C && TT.t[TT.t[x.a[0]].a[1]].k == 0 && TT.t[x.a[0]].a[0] == x.a[2] &&
+           TT.t[x.a[1]].op == TT.OP_SUB && TT.t[TT.t[x.a[1]].a[0]].op == TT.OP_C && TT.t[TT.t[x.a[1]].a[0]].k == 0 && TT.t[x.a[1]].a[1] == x.a[2]) r = TT.mk("abs", {x.a[2]}, 0, x.bytes);
   else if (x.op == TT.OP_SELECT && TT.t[x.a[0]].op == TT.OP_NOT) r = canon(TT.mk(TT.OP_SELECT, {TT.t[x.a[0]].a[0], x.a[2], x.a[1]}, 0, x.bytes));
   else if (x.op == TT.OP_NOT && TT.t[x.a[0]].op == TT.OP_NOT) r = TT.t[x.a[0]].a[0];
   else if (op == "icmp.eq") { int p = x.a[0], q = x.a[1]; if (q < p) std::swap(p, q); r = TT.mk(TT.OP_NOT, {TT.mk("icmp.ne", {p, q}, x.k, 1)}, 0, 1); }
@@ -272,6 +285,10 @@ int Canon::canon(int t) {
         if (TT.t[y].op == TT.OP_LSHR && TT.t[TT.t[y].a[1]].op == TT.OP_C) { k += (int)TT.t[TT.t[y].a[1]].k; y = TT.t[y].a[0]; while (TT.t[y].op == TT.OP_ZEXT && k < TT.t[y].k) y = TT.t[y].a[0]; }
         return TT.mk("bit", {y}, k, 1); };
       int bt = (p == "ne" || p == "eq") ? (bitTest(a0, a1) >= 0 ? bitTest(a0, a1) : bitTest(a1, a0)) : -1;
+      if (bt < 0 && (p == "ne" || p == "eq")) { // a bool cell holds 0 or 1: (m != 0) is its bit 0
+        int u = a0, v = a1; if (TT.t[u].op == TT.OP_C) std::swap(u, v);
+        if (TT.t[v].op == TT.OP_C && TT.t[v].k == 0 && TT.t[u].op == TT.OP_SYM && TT.ns[TT.t[u].a[0]].isbool) bt = TT.mk("bit", {u}, 0, 1);
+      }
       if (bt >= 0) r = p == "ne" ? bt : notT(bt);
       else if (p == "ne") r = atomT("ne", a0, a1, true); else if (p == "eq") r = notT(atomT("ne", a0, a1, true));
       else if (p == "slt" || p == "sgt") { int u = p == "slt" ? a0 : a1, v = p == "slt" ? a1 : a0; // u < v
